@@ -6,7 +6,7 @@ from common import sh2
 LEVEL = "proof"
 MANIFEST = {
     "technique": "Coq proof over a hand-written Gallina model of the bits package + differential correspondence (extracted OCaml vs Go)",
-    "level_text": "Theorems (coq/c13/C13Theorems.v, 43 - the C13b ones group related statements -, no length bound on byte strings or op sequences): the EBSP writer state machine "
+    "level_text": "Theorems (coq/c13/C13Theorems.v, 47 - the C13b and round-4 ones group related statements -, no length bound on byte strings or op sequences): the EBSP writer state machine "
                   "equals the one-shot escape spec, escape output has no forbidden triple, every 00 00 03 is an inserted escape and every "
                   "inserted byte is required, unescape inverts escape. Exact domain of the 64-bit accumulators: Write(v, n) appends exactly "
                   "the n low bits whenever pending + n <= 64 (every n <= 57 at any alignment, n = 0 appends nothing, up to 64 at a byte "
@@ -32,7 +32,14 @@ MANIFEST = {
                   "that fails returns 0 having consumed every input byte, and fails exactly when fewer than n bits are left. Writer / "
                   "FixedSliceWriter.WriteBits+FlushBits round-trip through Reader; FixedSliceWriter capacity / stickiness / byte methods, "
                   "ByteWriter prefix-at-limit; the same for the plain Reader.Read, and Reader.ReadSigned(n) returns the next n bits as a "
-                  "two's-complement number whenever n + k <= 64. Only explored (correspondence + search on the real code, not "
+                  "two's-complement number whenever n + k <= 64. Reader.ReadRemainingBytes (C13_read_remaining_bytes, "
+                  "C13_remaining_roundtrip): on every error-free reader state it returns exactly the unread bytes when no bits are "
+                  "pending (no error, byte counter not moved, reader drained: every later read of >= 1 bit fails with 0) and nil + error "
+                  "with 1..7 bits pending, nil and no change after an error; values written with Writer + Flush followed by ANY bytes "
+                  "are read back and the call returns exactly those bytes iff the values fill whole bytes. "
+                  "FixedSliceWriter.WriteString (C13_fsw_write_string) is WriteBytes of the string's bytes plus the terminator under ONE "
+                  "capacity check - all or nothing, pending bits untouched, never beyond the capacity -, so every FixedSliceWriter "
+                  "theorem holds for op sequences containing it. Only explored (correspondence + search on the real code, not "
                   "proved): reads of Exp-Golomb prefixes longer than 57 bits (malformed streams). The model "
                   "is tied to /repo on every run by running it (extracted) against the real bits package on exhaustive small byte "
                   "strings, every width 0..70 after every number of pending bits, and random op sequences.",
@@ -42,7 +49,9 @@ MANIFEST = {
                   "io.Reader failures other than EOF are not modelled. C13Model.write_ue / read_se (imported by C15..C19) are kept as they "
                   "were: they mirror the code for values <= 2^57 - 2 resp. codeNum < 2^64 - 1 (theorems C13_faultfree_is_writer, "
                   "C13_se_uint_boundary); the repaired / wrapping behaviour lives in C13ModelExt (write_ue_x, read_se64). Go uint is taken "
-                  "to be 64 bits. FixedSliceWriter.WriteString, Reader.ReadRemainingBytes and the slice readers are not modelled.",
+                  "to be 64 bits. ReadRemainingBytes: io.ReadAll on the bytes.Reader cannot fail (that error path is not modelled); the "
+                  "exhausted underlying reader is modelled by cutting the input at the read position (C13ModelTail.read_remaining). "
+                  "The slice readers (bits/fixedslicereader.go, not an anchored file) are not modelled.",
 }
 
 
@@ -59,7 +68,8 @@ def build(ctx):
 def run(ctx):
     ctx.cov["trusted_base"] = common.TRUSTED_BASE_COMMON + [
         "model: coq/c13/C13Model.v + C13ModelExt.v are a hand transcription of bits/ebspwriter.go, bits/ebspreader.go, "
-        "bits/writer.go, bits/reader.go, bits/fixedslicewriter.go (all methods but WriteString), bits/bytewriter.go",
+        "bits/writer.go, bits/reader.go, bits/fixedslicewriter.go, bits/bytewriter.go; C13ModelTail.v: Reader.ReadRemainingBytes, "
+        "FixedSliceWriter.WriteString",
         "harness/c13/ext2.go failAt (the io.Writer under EBSPWriter/Writer: accepts k bytes, then fails - permanently or once)",
         "harness/c13/ext.go limitedWriter (the io.Writer under ByteWriter: accepts N bytes, then fails after a partial write)",
         "spec: coq/c13/C13Spec.v escape/unescape/forbidden (H.264 7.4.1 rule, written by hand)",
@@ -88,6 +98,13 @@ def run(ctx):
         "cases": len(lines), "mismatches": len(mism), "distinct_cases": distinct,
         "exhaustive_alphabet_len": exh,
         "kinds": {k: sum(1 for l in lines if l.startswith(k + "\t")) for k in ("W", "R", "F", "B", "X")},
+        # round 4: cases that exercise the two methods added in C13ModelTail.v (field 4 = the ops of R / F lines)
+        "read_remaining_cases": sum(1 for l in lines if l.startswith("R\t") and
+                                    any(o == "r" for o in l.split("\t")[4].split(";"))),
+        "read_remaining_returned_bytes": sum(1 for l in lines if l.startswith("R\t") and
+                                             any(o.startswith("h") for o in l.split("\t")[5].split(","))),
+        "write_string_cases": sum(1 for l in lines if l.startswith("F\t") and
+                                  any(o.startswith("s:") for o in l.split("\t")[3].split(";"))),
     }
     ctx.cov["samples"] += [l[:300] for l in lines[1000:1003]] + [l[:300] for l in lines[-3:]]
     ctx.log("correspondence: %d cases, %d mismatches" % (len(lines), len(mism)))
@@ -149,7 +166,13 @@ def run(ctx):
                        "and se over the whole uint range over a sink failing at byte k, readers on zero-heavy streams (prefixes of 50..72 "
                        "zero bits) and after EOF; search: round trip for widths <= 57 and ue <= 2^57-2 against the packer with junk above the "
                        "width, every ue value coded exactly or refused cleanly (hang probe for the maximal uint), delivered bytes = prefix "
-                       "of the fault-free output under a permanently or transiently failing sink, sticky read errors with frozen counters"
+                       "of the fault-free output under a permanently or transiently failing sink, sticky read errors with frozen counters; "
+                       "round 4 (harness/c13/tail.go): plain reader cases with ReadRemainingBytes after 0..25 bits of 0..3 bytes (exhaustive) "
+                       "and after random aligned / unaligned reads, followed by further reads and calls; WriteString (any bytes, with / "
+                       "without terminator) is one of the FixedSliceWriter ops of every F case and FixedSliceWriter oracle; search: values + "
+                       "Flush + arbitrary tail -> values back and ReadRemainingBytes = the tail iff byte aligned, nil + sticky error "
+                       "otherwise, nil after a failed read, nothing left afterwards; WriteString = bytes (+00) at exact / roomy capacity, "
+                       "error and nothing beyond the capacity when too small"
                        % (exh, n, n, n, n))
 
 
